@@ -132,6 +132,11 @@ type c05Case struct {
 	// NtOrder (codonalign): the nucleotide sequences are handed over in this order of rows (nil: the order of
 	// the protein alignment); the result is in the order of the protein alignment whatever the order is
 	NtOrder []int `json:"nt_order,omitempty"`
+	// Names (codonalign): the names of the rows (nil: a, b, c, ...)
+	Names []string `json:"names,omitempty"`
+	// Reordered (byref): the alignment is built with its rows in reverse order, every name is looked up
+	// (GetSequenceIdByName, GetSequenceByName), then Sort() brings the rows into the order of Seqs
+	Reordered bool `json:"reordered,omitempty"`
 }
 
 const c05CodonAlpha = "ACGTURYSWKMBDHVNacgturyswkmbdhvn-.*?XxZ1 \xe9"
@@ -288,6 +293,12 @@ func c05Tasks(tier string) []mc.Task {
 		pr := []string{"MK-P", "MPK-", "LG-K"}
 		perms(3, func(p []int) {
 			c05Check(c, c05Case{Kind: "codonalign", Seqs: nts, Prot: pr, Code: align.GENETIC_CODE_STANDARD, NtOrder: append([]int{}, p...)})
+			// names that share a first word, a prefix, everything up to a separator, or differ by case only:
+			// the sequences are matched on their whole names
+			for _, nm := range [][]string{{"Homo sapiens", "Homo neanderthalensis", "Homo"}, {"s.1", "s.2", "s"}, {"x|1", "x|2", "x|"}, {"s_1", "s_2", "s_"},
+				{"Seq\tA", "Seq\tB", "Seq"}, {"ab", "AB", "Ab"}, {"a b", "a  b", "a b "}, {"s1", "s10", "s100"}} {
+				c05Check(c, c05Case{Kind: "codonalign", Seqs: nts, Prot: pr, Code: align.GENETIC_CODE_STANDARD, NtOrder: append([]int{}, p...), Names: nm})
+			}
 		})
 	}})
 	// (iv) TranslateByReference: all 2-row alignments L<=maxR over {A,C,G,-}, frames 0..2, each row as reference
@@ -579,6 +590,10 @@ func c05Check(c *mc.Ctx, cs c05Case) {
 		c05CodonAlign(c, cs, viol)
 	case "byref":
 		c05ByRef(c, cs, viol)
+		if !cs.Reordered && len(cs.Seqs) >= 2 {
+			cs.Reordered = true
+			c05Check(c, cs)
+		}
 	}
 }
 
@@ -623,17 +638,20 @@ func c05RowName(i int) string {
 	return fmt.Sprintf("r%04d", i)
 }
 
-func c05Named(seqs []string) rows {
+func c05Named(seqs []string, names ...string) rows {
 	out := make(rows, len(seqs))
 	for i, s := range seqs {
 		out[i] = row{c05RowName(i), s}
+		if i < len(names) {
+			out[i].Name = names[i]
+		}
 	}
 	return out
 }
 
 func c05CodonAlign(c *mc.Ctx, cs c05Case, viol func(string, string)) {
-	prot, e1 := mkAlign(align.AMINOACIDS, c05Named(cs.Prot))
-	ntRows := c05Named(cs.Seqs)
+	prot, e1 := mkAlign(align.AMINOACIDS, c05Named(cs.Prot, cs.Names...))
+	ntRows := c05Named(cs.Seqs, cs.Names...)
 	if cs.NtOrder != nil {
 		perm := make(rows, len(ntRows))
 		for i, k := range cs.NtOrder {
@@ -676,7 +694,7 @@ func c05CodonAlign(c *mc.Ctx, cs c05Case, viol func(string, string)) {
 		return
 	}
 	for i, g := range got {
-		if g.Name != c05RowName(i) || len(g.Seq) != 3*len(cs.Prot[i]) {
+		if g.Name != c05Named(cs.Seqs, cs.Names...)[i].Name || len(g.Seq) != 3*len(cs.Prot[i]) {
 			viol("shape", fmt.Sprintf("row %d = %v", i, g))
 			return
 		}
@@ -714,10 +732,30 @@ func c05CodonAlign(c *mc.Ctx, cs c05Case, viol func(string, string)) {
 
 func c05ByRef(c *mc.Ctx, cs c05Case, viol func(string, string)) {
 	in := namedRows(cs.Seqs...)
-	al, e := mkAlign(align.NUCLEOTIDS, in)
+	build := in
+	if cs.Reordered {
+		build = nil
+		for i := len(in) - 1; i >= 0; i-- {
+			build = append(build, in[i])
+		}
+	}
+	al, e := mkAlign(align.NUCLEOTIDS, build)
 	if e != nil {
 		c.Fatal("cannot build byref input: %v", e)
 		return
+	}
+	if cs.Reordered {
+		for _, r := range in {
+			al.GetSequenceIdByName(r.Name)
+			al.GetSequenceByName(r.Name)
+		}
+		al.Sort()
+		for i, r := range readRows(al) {
+			if r != in[i] {
+				viol("sort", fmt.Sprintf("after Sort row %d is %v", i, r))
+				return
+			}
+		}
 	}
 	var err error
 	pn, msg := mc.Guard(func() { err = al.TranslateByReference(cs.Frame, cs.Code, rowNames[cs.Ref]) })
